@@ -107,6 +107,22 @@ def story_md_variants():
     return out
 
 
+def _respelt(t, rng):
+    """The same document with every time field in another accepted spelling: a blank instead of the T, a
+    fraction of a second (a multiple of 1/8 s)."""
+    t = list(t)
+    if t[0] in ('roEdStart', 'StoryStarted', 'StoryEnded') and t[2] and len(t[2]) == 19:
+        v = t[2]
+        c = rng.random()
+        if c < 0.4:
+            v = v.replace('T', ' ')
+        if rng.random() < 0.6:
+            v = v + rng.choice(['.5', '.125', '.250', '.875000', '.0'])
+        t[2] = v
+    t[4] = [_respelt(c, rng) for c in t[4]]
+    return t
+
+
 def _zoned(t, zone):
     """The same document with a zone designator appended to every time field."""
     t = list(t)
@@ -158,6 +174,9 @@ def time_cases(tier, rng):
             per_field = rng.random() < 0.4
             zl = ' zones=' + ('mixed' if per_field else one)
             doc = _zoned(doc, lambda: rng.choice(ZONES) if per_field else one)
+        if rng.random() < 0.25:
+            doc = _respelt(doc, rng)
+            zl += ' respelt'
         out.append((f'{n} stories [{", ".join(lbls)}] roEdStart={ed is not None}{zl}', doc))
     out.append(('no stories', B.ro_doc([], ed_start='2021-03-04T09:00:00')))
     out.append(('no stories, no start', B.ro_doc([])))
